@@ -144,6 +144,12 @@ def persist (kr : Keyring) : List PWrite × Res :=
     if !ak.aesOK then ([w1], .cipher) else
     ([w1, .put .rootKey (.enc kr.active ak .rootKey (.val (.keyrec 1 kr.root))), .del .legacy], .ok)
 
+/-- `persistKeyring` of the barrier of a separately sealed namespace (`metaPrefix ≠ ""`) leaves the root namespace's
+legacy entry alone (finding F50, repaired): the same writes without the legacy delete -/
+def persistNs (ns : Bool) (kr : Keyring) : List PWrite × Res :=
+  let (ws, r) := persist kr
+  (if ns then ws.filter (fun w => w != PWrite.del .legacy) else ws, r)
+
 /-- `lockSwitchedGet` after the sealed check: read, pick the term key from the header, open with path as AAD -/
 def readEntry (p : Phys) (kr : Option Keyring) (path : Path) : Res :=
   match p.get path with
@@ -171,7 +177,7 @@ def step (ns : Bool) (p : Phys) (b : Barrier) (fk : Key) : Op → Eff
     if b.initFlag then { bar := b, res := .alreadyInit } else
     if (p.get .keyring).isSome then { bar := { b with initFlag := true }, res := .alreadyInit } else
     let kr : Keyring := { root := k, keys := [(1, fk)], active := 1 }
-    match persist kr with
+    match persistNs ns kr with
     | (ws, .ok) =>
       match sealK with
       | none => { bar := { b with dirty := true }, writes := ws, res := .ok, gen := true }
@@ -217,7 +223,7 @@ def step (ns : Bool) (p : Phys) (b : Barrier) (fk : Key) : Op → Eff
       match kr.addKey (kr.active + 1) fk with
       | none => { bar := b, res := .conflict }
       | some nkr =>
-        match persist nkr with
+        match persistNs ns nkr with
         | (ws, .ok) => { bar := { b with keyring := some nkr, dirty := false, hot := false }, writes := ws, res := .okTerm (kr.active + 1), gen := true }
         | (ws, r) => { bar := { b with dirty := b.dirty || !ws.isEmpty }, writes := ws, res := r, gen := !ws.isEmpty }
   | .rotroot k =>
@@ -227,7 +233,7 @@ def step (ns : Bool) (p : Phys) (b : Barrier) (fk : Key) : Op → Eff
     | none => { bar := b, res := .panic }
     | some kr =>
       let nkr := { kr with root := k }
-      match persist nkr with
+      match persistNs ns nkr with
       | (ws, .ok) => { bar := { b with keyring := some nkr, dirty := true }, writes := ws, res := .ok }
       | (ws, r) => { bar := { b with dirty := b.dirty || !ws.isEmpty }, writes := ws, res := r }
   | .setroot k =>
@@ -315,7 +321,7 @@ def step (ns : Bool) (p : Phys) (b : Barrier) (fk : Key) : Op → Eff
       if b.hot then { bar := b, res := .due } else
       if b.sealed then { bar := b, res := .ok } else
       if !b.dirty then { bar := b, res := .ok } else
-      match persist kr with
+      match persistNs ns kr with
       | (ws, .ok) => { bar := { b with dirty := false }, writes := ws, res := .ok }
       | (ws, r) => { bar := b, writes := ws, res := r }
   | .setrot d =>
@@ -326,7 +332,7 @@ def step (ns : Bool) (p : Phys) (b : Barrier) (fk : Key) : Op → Eff
     | some kr =>
       if d = kr.rot then { bar := b, res := .ok } else
       let nkr := { kr with rot := d }
-      match persist nkr with
+      match persistNs ns nkr with
       | (ws, .ok) => { bar := { b with keyring := some nkr, dirty := true }, writes := ws, res := .ok }
       | (ws, r) => { bar := { b with keyring := some nkr, dirty := b.dirty || !ws.isEmpty }, writes := ws, res := r }
   | .heat => { bar := { b with hot := true, dirty := true }, res := .ok }
